@@ -362,6 +362,18 @@ class Interp:
         if e.id in ("isinstance", "issubclass", "type", "float", "int", "complex", "bool", "str", "len", "warnings",
                     "Vector", "SerifTypeError", "TypeError"):
             return Opaque(e.id)
+        # module-level constant (a table hoisted out of a function): evaluate its defining expression once
+        if mod in self.prog.modules:
+            key = (mod, e.id)
+            cache = self.__dict__.setdefault("_modconst", {})
+            if key in cache:
+                return cache[key]
+            defs = [st for st in self.prog.modules[mod].tree.body
+                    if (isinstance(st, ast.Assign) and any(isinstance(t, ast.Name) and t.id == e.id for t in st.targets))
+                    or (isinstance(st, ast.AnnAssign) and isinstance(st.target, ast.Name) and st.target.id == e.id and st.value is not None)]
+            if len(defs) == 1:
+                cache[key] = self.ev(defs[0].value, {"__module__": mod}, f)
+                return cache[key]
         raise AnalysisError(f"abstract evaluator: unbound name `{e.id}` in {f.qualname} (line {e.lineno})")
 
     def _e_Tuple(self, e, env, f):
